@@ -67,7 +67,7 @@ Definition send_s_raw (c : conn) : conn * list obs :=
 (* sendASDUInternal: responses issued by the application / negative responses *)
 Definition send_asdu_internal (g : cfg) (now : Z) (c : conn) (asdu : list Z) : conn * bool * list obs :=
   if st c =? STARTED then
-    if negb (kfull (c_k g) c) then let '(c', o) := send_i now c asdu None in (c', true, o)
+    if negb (kfull (c_k g) c) && (match hp c with [] => true | _ => false end) then let '(c', o) := send_i now c asdu None in (c', true, o)
     else (c <| hp := hp c ++ [asdu] |>, true, [])     (* abstract high-priority FIFO, below capacity *)
   else (c, false, []).
 
